@@ -15,9 +15,9 @@ SPEC = dict(
          "and monitored wrappers, plus `wtf [search]` runs; every returned list passes through the result-invariant monitor "
          "(len<=limit in force, entries are elements of the searched slice by address, no index twice, scores finite >=0, "
          "non-increasing). Non-trivial = distinct (db, query, options) with a non-empty answer, keyed with the answering path.",
-    floors=T({"lexical": 200, "nlp": 200, "fuzzy": 100, "cached": 500, "pipeline": 100, "cli-recovery": 5, "cli-fuzzy": 5,
+    floors=T({"lexical": 200, "nlp": 200, "fuzzy": 100, "cached": 500, "pipeline": 100, "cli-recovery": 5, "cli-fuzzy": 5, "recovery-answers": 100, "cached-limit-sequence-steps": 500,
               "distinct_nontrivial": 1000},
-             {"lexical": 2000, "nlp": 2000, "fuzzy": 1000, "cached": 5000, "pipeline": 1000, "cli-recovery": 50, "cli-fuzzy": 50,
+             {"lexical": 2000, "nlp": 2000, "fuzzy": 1000, "cached": 5000, "pipeline": 1000, "cli-recovery": 50, "cli-fuzzy": 50, "recovery-answers": 1000, "cached-limit-sequence-steps": 5000,
               "distinct_nontrivial": 10000}),
     assumptions=[
         "context / pipeline boosts are kept <= 1e6 so float overflow to +Inf is not manufactured by the generator",
